@@ -1,13 +1,6 @@
 //! lv — verification harness for lopdf (see /verif/DESIGN.md).
 
-mod alloc;
-mod canon;
-mod engine;
-mod gen;
-mod model;
-mod props;
-mod refimpl;
-mod worker;
+use lv::{alloc, engine, props, worker};
 
 #[global_allocator]
 static GLOBAL: alloc::Counting = alloc::Counting;
